@@ -162,7 +162,7 @@ func (s *SelectStatement) ToStreamConfig() (*types.Config, string, error) {
 					}
 					if n != "" {
 						// If string literal, use parsed field name (remove quotes)
-						simpleFields = append(simpleFields, n)
+						simpleFields = append(simpleFields, fieldName+":"+n)
 					} else {
 						// Otherwise use original expression
 						simpleFields = append(simpleFields, fieldName)
